@@ -435,7 +435,7 @@ func main() {
 	tags := flag.String("tags", "verif", "build tags")
 	overlayFile := flag.String("overlay", "", "JSON file {virtual path: real path}")
 	out := flag.String("o", "", "output file")
-	allowPk := flag.String("allow", "unicode/utf8,unicode/utf16,math/bits", "extra packages whose bodies are exported")
+	allowPk := flag.String("allow", "unicode/utf8,unicode/utf16,math/bits,encoding/binary", "extra packages whose bodies are exported")
 	flag.Parse()
 	pkgs := flag.Args()
 	if len(pkgs) == 0 {
